@@ -66,6 +66,9 @@ class Tree:
     """A scratch copy of the working tree with (some) targets built."""
 
     def __init__(self, sanitize=False, tag=""):
+        # VERIF_SANITIZE=1: every check runs against ASan+UBSan builds of the programs (used by C20's thorough tier to re-run the
+        # session generators of other properties against sanitised whole programs)
+        sanitize = sanitize or bool(os.environ.get("VERIF_SANITIZE"))
         self.dir = os.path.join(scratch_root(), "src" + ("-san" if sanitize else "") + tag)
         self.sanitize = sanitize
         self.built = set()
